@@ -128,6 +128,7 @@ def fs_sequence(rep, root, length):
 
 
 def stream_fs(rep, tier):
+    F.set_tmp_prefix('t')
     nseq = 350 if tier == 'quick' else 6000
     cases, results, metas = [], [], []
     root = U.scratch()
@@ -203,7 +204,8 @@ def pack_configs(rep, tier):
         j = 0
         for k in range(1, 17):
             for mode in U.MODES:
-                for rpt in range(3 if k <= 8 else 2):
+                nrep = (3 if k <= 8 else 2) if mode in U.OLD_MODES else (2 if k <= 6 else 1)
+                for rpt in range(nrep):
                     n, var, nin, cs = frames[j % len(frames)]
                     comp = comps[j % 3]
                     prior = priors[(j // 3) % 4] if rpt != 1 else None
@@ -255,10 +257,10 @@ def check_property(rep, root, df, o, meta, outside_before):
     if extra:
         par = o.tmp_parent or ''
         anc = {'/'.join(par.split('/')[:j]) for j in range(1, par.count('/') + 2)} if par else set()
-        if meta['mode'] == 'uuid' and set(extra) <= anc and all(outside_after[e] == 'dir' for e in extra):
+        if par and set(extra) <= anc and all(outside_after[e] == 'dir' for e in extra):
             rep.violation('tempdir-parent-left',
                           'tempdir_format with directories above the per-partition leaf '
-                          f'(tmp/{{uuid}}/t{{partition}}): the empty parent directories {extra} created '
+                          f'({U.TMPSPEC[meta["mode"]][0]}): the empty parent directories {extra} created '
                           'by makedirs are left behind',
                           {**meta, 'left': [re.sub(r'^tmp/[^/]+', 'tmp/<uuid>', e) for e in extra]})
         else:
@@ -314,8 +316,17 @@ def one_pack(rep, root, cfg, idx):
     os.makedirs(os.path.join(root, 'keep'))
     with open(os.path.join(root, 'keep', 'other.bin'), 'wb') as f:
         f.write(b'opaque:5')
+    F.set_tmp_prefix(U.leaf_prefix(mode))
+    # siblings of the dataset whose names start with the dataset's name: outside it
+    os.makedirs(os.path.join(root, U.DS + '2'))
+    with open(os.path.join(root, U.DS + '2', 'inner.bin'), 'wb') as f:
+        f.write(b'opaque:6')
+    with open(os.path.join(root, U.DS + '.keep'), 'wb') as f:
+        f.write(b'opaque:8')
     if mode == 'uuid' and idx % 2:
         os.makedirs(os.path.join(root, 'tmp'))
+    if mode == 'subdir' and idx % 2:
+        os.makedirs(os.path.join(root, U.DS + '-tmp'))
     if prior == 'synthetic-small':
         U.synthetic_prior(root, rng, 1, junk=False)
     elif prior == 'synthetic-large':
@@ -392,7 +403,9 @@ def run(rep):
     tier = getattr(rep, 'tier_run', rep.tier)
     rep.rule = ('(A) random op sequences (4-14 ops over a pool of 7 names, depth <= 4, biased to existing '
                 'paths) on the real LocalFileSystem vs Model/FS.v; (B) real pack_partitions_to_parquet runs: '
-                'npartitions 1..16 x {inside, external with {uuid} parent, external flat} x frames of 1..13 '
+                'npartitions 1..16 x {inside, external tmp/{uuid}/t{partition}, external t{partition}, external '
+                'siblings of the dataset named after it: ds.tmp-{partition}, ds.tmp-{uuid}-{partition}, '
+                'ds-tmp/{partition}} x frames of 1..13 '
                 '(thorough: ..24) rows with duplicate / missing geometries and two geometry columns x input '
                 'partitionings with empty input partitions x compression {snappy, gzip, None} x prior dataset '
                 '{none, synthetic smaller, synthetic larger with debris, real}; non-trivial = distinct '
